@@ -31,7 +31,7 @@ ASSUMPTIONS = [
     "fields inside config types are not enumerated by get_all_fields and are outside this property's path set",
 ]
 REQUIRED = ["cmdline:empty", "cmdline:subset", "ignore:none", "ignore:one", "ignore:list", "has:bool", "depth>=2",
-            "arg:invalid", "arg:valid", "setitem-vs-setattr", "has:include", "schema-extended-after-enumeration"]
+            "arg:invalid", "arg:valid", "setitem-vs-setattr", "has:include", "schema-extended-after-enumeration", "parser:from-config-before-the-history"]
 LEVEL_TEXT = (
     "Generated schemas, states and command lines; agreement of the naming routes is checked pairwise and the "
     "override against a reference model; kills mutants that ignore 'ignore', build dest with '-', or drop a prefix."
@@ -150,7 +150,7 @@ def strategy(tier):
         else:
             assign = st.just([])
         return st.fixed_dictionaries({"spec": st.just(spec), "prefix": st.lists(ops.single_op(spec), max_size=6),
-                                      "assign": assign, "args_ign": args_ign, "ignore_str": st.booleans()}).map(
+                                      "assign": assign, "args_ign": args_ign, "ignore_str": st.booleans(), "parser_from": st.sampled_from(["schema", "config-early"])}).map(
             lambda c: dict(c, args=c["args_ign"][0], ignore=c["args_ign"][1]))
     kinds = ["str", "int", "float", "port", "bool", "bool", "host", "loglevel", "appmode", "secure", "list", "dict", "bytes", "any",
              "challenge", "ipv4", "ipv4net", "url", "filename"]
@@ -169,6 +169,12 @@ def run_case(case, R):
         world = worlds.World(cc, spec)
         keyfile = os.path.join(d, "key")
         state = {"cfg": world.schema(key_filename=keyfile), "keyfile": keyfile}
+        # a parser generated from the live configuration at start-up, before the state changes (the usual order: build the
+        # parser, load the file, then apply the command line)
+        try:
+            early_parser = cc.generate_argparse_parser(state["cfg"])
+        except Exception as exc:
+            early_parser = exc
         for op in case["prefix"]:
             if op["op"] != "ctor":
                 ops.apply_op(world, state, op)
@@ -298,6 +304,14 @@ def run_case(case, R):
         else:
             R.label("ignore:none")
         R.label("cmdline:empty" if not argv else "cmdline:subset")
+        if case.get("parser_from") == "config-early":
+            R.label("parser:from-config-before-the-history")
+            if not R.check(not isinstance(early_parser, Exception), "parser", "from-config", lambda: "generate_argparse_parser(config) raised %r" % (early_parser,)):
+                return
+            early = {tuple(a.option_strings): (a.dest, type(a).__name__) for a in early_parser._actions if "-h" not in a.option_strings}
+            late = {tuple(a.option_strings): (a.dest, type(a).__name__) for a in parser._actions if "-h" not in a.option_strings}
+            R.check(early == late, "parser", "from-config:actions", lambda: "parser from the configuration differs from the parser from its schema: %r" % (set(early.items()) ^ set(late.items()),))
+            parser = early_parser
         try:
             ns = parser.parse_args(argv)
         except SystemExit:
